@@ -111,4 +111,57 @@ theorem nearestMag_pair (n d : Nat) (hn : 0 < n) (hd : 0 < d) :
   · rw [if_pos h, if_pos h]
   · rw [if_neg h, if_neg h]
 
+/-- every positive fraction sits in some binade: `d·2^L ≤ n·2^sh < d·2^(L+1)` -/
+theorem exists_binade (n d : Nat) (hn : 0 < n) (hd : 0 < d) :
+    ∃ L sh, d * 2 ^ L ≤ n * 2 ^ sh ∧ n * 2 ^ sh < d * 2 ^ (L + 1) := by
+  obtain ⟨_, hdhi⟩ := log2_bounds d (by omega)
+  have hq0 : n * 2 ^ (Nat.log2 d + 1) / d ≠ 0 := by
+    intro h
+    rcases (Nat.div_eq_zero_iff).1 h with h | h
+    · omega
+    · have : 1 * 2 ^ (Nat.log2 d + 1) ≤ n * 2 ^ (Nat.log2 d + 1) := Nat.mul_le_mul_right _ hn
+      omega
+  obtain ⟨l1, l2⟩ := log2_bounds _ hq0
+  refine ⟨Nat.log2 (n * 2 ^ (Nat.log2 d + 1) / d), Nat.log2 d + 1, ?_, ?_⟩
+  · exact Nat.le_trans (Nat.mul_le_mul_left _ l1) (Nat.mul_div_le _ _)
+  · have := (Nat.div_lt_iff_lt_mul hd).1 l2
+    rw [Nat.mul_comm d]; exact this
+
+theorem floorLog2Frac_scale (n d c : Nat) (hn : 0 < n) (hd : 0 < d) (hc : 0 < c) :
+    floorLog2Frac (n * c) (d * c) = floorLog2Frac n d := by
+  obtain ⟨L, sh, h1, h2⟩ := exists_binade n d hn hd
+  rw [floorLog2Frac_shift n d L sh hn hd h1 h2]
+  apply floorLog2Frac_shift (n * c) (d * c) L sh (Nat.mul_pos hn hc) (Nat.mul_pos hd hc)
+  · calc d * c * 2 ^ L = d * 2 ^ L * c := by ring
+      _ ≤ n * 2 ^ sh * c := Nat.mul_le_mul_right _ h1
+      _ = n * c * 2 ^ sh := by ring
+  · calc n * c * 2 ^ sh = n * 2 ^ sh * c := by ring
+      _ < d * 2 ^ (L + 1) * c := Nat.mul_lt_mul_of_pos_right h2 hc
+      _ = d * c * 2 ^ (L + 1) := by ring
+
+theorem binadeExp_scale (n d c : Nat) (hn : 0 < n) (hd : 0 < d) (hc : 0 < c) :
+    binadeExp (n * c) (d * c) = binadeExp n d := by
+  unfold binadeExp; rw [floorLog2Frac_scale n d c hn hd hc]
+
+theorem roundPair_scale (n d c : Nat) (hn : 0 < n) (hd : 0 < d) (hc : 0 < c) :
+    roundPair (n * c) (d * c) = ((roundPair n d).1 * c, (roundPair n d).2 * c) := by
+  unfold roundPair
+  rw [binadeExp_scale n d c hn hd hc]
+  split
+  · simp only [Prod.mk.injEq, true_and]; ring
+  · simp only [Prod.mk.injEq, and_true]; ring
+
+/-- the correctly rounded pattern depends on the fraction only -/
+theorem nearestMag_scale (n d c : Nat) (hn : 0 < n) (hd : 0 < d) (hc : 0 < c) :
+    nearestMag (n * c) (d * c) = nearestMag n d := by
+  have hpos : 0 < (roundPair n d).2 := by
+    unfold roundPair
+    split
+    · exact Nat.mul_pos hd (Nat.pow_pos (by decide))
+    · exact hd
+  rw [nearestMag_pair (n * c) (d * c) (Nat.mul_pos hn hc) (Nat.mul_pos hd hc), nearestMag_pair n d hn hd,
+    binadeExp_scale n d c hn hd hc, roundPair_scale n d c hn hd hc]
+  simp only
+  rw [rne_mul_right _ _ c hpos hc]
+
 end Qentem.Round
